@@ -20,6 +20,12 @@ def make_raw(case):
     wd = [float(x) for x in rng.uniform(0, 360, ns)]
     us = [float(x) for x in rng.uniform(0.3, 0.5, ns)]
     mol = [float(x) for x in rng.choice([-80.0, -200.0, 150.0], ns)]
+    # exact round values a series holds as a matter of course: a wind from due north (0 degrees, float or int), whole-number speeds
+    k0 = int(rng.integers(ns))
+    if case["cseed"] % 3 == 0:
+        wd[k0] = [0.0, 0, 360.0, 180][case["cseed"] % 4]
+    if case["cseed"] % 5 == 0:
+        ws[int(rng.integers(ns))] = 3
     if case.get("repeat_met") and ns >= 2:
         ws[-1], wd[-1], us[-1], mol[-1] = ws[0], wd[0], us[0], mol[0]   # repeated met conditions within a series
     met = dict(wind_speed=ws, wind_dir=wd, ustar=us, mol=mol) if ns > 1 else dict(wind_speed=ws[0], wind_dir=wd[0], ustar=us[0], mol=mol[0])
